@@ -62,13 +62,15 @@ func (proxy *multicastProxy) AddMember(m io.Closer) {
 			}
 		}
 
-		proxy.members = append(proxy.members, m)
 		proxy.cid = stream.StartConsume(proxy, media.RTPPacket,
 			"net = rtsp-multicast, "+proxy.multicastIP)
 		proxy.closed = false
 
 		proxy.logger.Info("multicast proxy started.")
 	}
+
+	// 每个成员都要登记(不仅是第一个)：最后一个成员离开时才停止代理，流结束时关闭全部成员
+	proxy.members = append(proxy.members, m)
 }
 
 func (proxy *multicastProxy) ReleaseMember(m io.Closer) {
